@@ -61,6 +61,7 @@ fn common_events() -> Vec<Ev> {
     .collect();
     v.push(Ev::Cont);
     v.push(Ev::Break);
+    v.push(Ev::StopEvaluating);
     v.push(Ev::Input("5".into()));
     v.push(Ev::Input("x".into()));
     v
